@@ -30,6 +30,9 @@ def inputs_for(tier, seed):
         for pk in ("basic", "bc", "ast"):
             out.append(("shape", s, pk))
     rng = random.Random(seed)
+    # many small graphs: rare shapes (nesting depth >= 2, region predecessors) show up at 5..9 blocks
+    for i in range(3000 if tier == "quick" else 60000):
+        out.append(("small", gen_graphs.random_closed(rng, rng.randrange(5, 10)), "basic"))
     nrand = 1200 if tier == "quick" else 40000
     for i in range(nrand):
         n = rng.randrange(5, 13) if i % 2 == 0 else rng.randrange(13, 41)
@@ -187,7 +190,7 @@ def compute(tier, seed, extra_inputs=None):
 
 
 def cache_dir(tier, seed):
-    key = "%s-%s-%d" % (common.repo_hash(), tier, seed)
+    key = "%s-%s-%s-%d" % (common.repo_hash(), common.harness_hash(), tier, seed)
     return os.path.join(common.BUILD, "cache", key)
 
 
